@@ -1,7 +1,7 @@
 (* C02 — equal functions have identical Bdds: canonical form through any history. *)
 From Coq Require Import List NArith Bool. Import ListNotations.
-From BddVerif Require Import Model.Bdd Model.Apply Model.Ops Proofs.Sem Proofs.Canon Proofs.Reflect
-  Proofs.ApplySem Proofs.ApplyTop Proofs.TernSem Proofs.NotSem Proofs.QuantSem Proofs.History.
+From BddVerif Require Import Model.Bdd Model.Apply Model.Ops Model.Restrict Proofs.Sem Proofs.Canon Proofs.Reflect
+  Proofs.ApplySem Proofs.ApplyTop Proofs.TernSem Proofs.NotSem Proofs.QuantSem Proofs.History Proofs.Restrict.
 Open Scope N_scope.
 
 (* Canonical b: valid ordered diagram (variables strictly increase along edges, links in range),
@@ -61,6 +61,20 @@ Theorem C02_projection_canonical : forall u b vars, Canonical b ->
     (forall v, eval r v = true <-> qspec u vars (eval b) v).
 Proof. exact project_canonical. Qed.
 Print Assumptions C02_projection_canonical.
+
+(* the dedicated single-pass restriction (order-faithful model of `fn restriction`, Model/Restrict.v): the
+   layout argument that a fix: commit had to repair in the Rust (high child resolved before the low child) is
+   a theorem — lock-step of the DFS with the structural checker chk; reducedness from collapse + node cache *)
+Theorem C02_restrict_canonical : forall b pv r, Canonical b -> restriction b pv = Some r -> Canonical r.
+Proof. exact restriction_canonical. Qed.
+Print Assumptions C02_restrict_canonical.
+
+(* ... and it canonicalises: a merely valid operand suffices (unreachable and duplicate nodes disappear) *)
+Theorem C02_restrict_canonicalises : forall b pv, wf b ->
+  exists r, restriction b pv = Some r /\ Canonical r /\ nvars r = nvars b /\
+    forall v, eval r v = eval b (fun y => match pv_get pv y with Some c => c | None => v y end).
+Proof. exact restriction_full. Qed.
+Print Assumptions C02_restrict_canonicalises.
 
 (* Through any history: `hop` is a language of operation histories over the model's producers (constants,
    literals, clauses, valuations, dnf/cnf, thresholds, fused binary / ternary / ite, not, exists / for_all,
